@@ -246,3 +246,11 @@ pub fn catch<T>(f: impl FnOnce() -> T) -> Result<T, String> {
         }
     }
 }
+
+/// The shadow field elements (value + term) inside any serializable artefact, in serialization order.
+pub fn terms_of<T: ark_serialize::CanonicalSerialize>(x: &T) -> Vec<SF> {
+    crate::engine::ro::discard_pending();
+    let mut b = vec![];
+    let _ = x.serialize_uncompressed(&mut b);
+    crate::engine::ro::take_pending().into_iter().map(|(t, v)| SF { v, t }).collect()
+}
